@@ -347,7 +347,7 @@ impl Prop for C17 {
 		} else {
 			let schema = container::gen_schema_for(rng, &profile);
 			let env = Env::build(&schema);
-			let vcfg = ValCfg { max_len: 1 + rng.usize(6), max_depth: 4, budget: 6 + rng.below(30) as i32 };
+			let vcfg = ValCfg { max_len: 1 + rng.usize(6), max_depth: 4, budget: 6 + rng.below(30) as i32, str_boost: 0 };
 			let n = 1 + rng.usize(10);
 			let values: Vec<Val> = (0..n).map(|_| val::gen_val(rng, &env, &schema, &vcfg)).collect();
 			FileSrc::Ref(BSpec {
